@@ -38,6 +38,7 @@ import (
 )
 
 var out *bufio.Writer
+var wgFailed bool
 
 type txn struct {
 	keys          []int
@@ -517,12 +518,16 @@ func (s *sim) apply(op string) (res string) {
 				s.pcs[j] = 'D'
 				rs = append(rs, "D")
 				// wakeup() must have called wg.Done(): Wait returns (generous margin, no timing assertion otherwise)
+				if wgFailed {
+					continue // reported once already; do not wait again
+				}
 				done := make(chan struct{})
 				go func(l *latch.Lock) { l.VWgWait(); close(done) }(s.locks[j])
 				select {
 				case <-done:
 					s.npass["wakeup_done"]++
 				case <-time.After(20 * time.Second):
+					wgFailed = true
 					s.fail("no_lost_wakeup", fmt.Sprintf("wakeup() left lock %d (not locked any more) without wg.Done()", j))
 				}
 			}
@@ -563,7 +568,11 @@ func (s *sim) dump() string {
 			if j > 0 {
 				sb.WriteByte(' ')
 			}
-			sb.WriteString(strconv.Itoa(s.idx[w]))
+			if w == nil {
+				sb.WriteString("nil")
+			} else {
+				sb.WriteString(strconv.Itoa(s.idx[w]))
+			}
 		}
 		sb.WriteString("] ")
 	}
@@ -602,6 +611,11 @@ func (s *sim) keyAt(i int) int {
 }
 
 func (s *sim) oracles(nEnabled int) {
+	defer func() {
+		if r := recover(); r != nil {
+			s.fail("exclusive", fmt.Sprintf("evaluating the oracles on the implementation state panicked: %v", r))
+		}
+	}()
 	snap := s.lat.VSnapshot()
 	holder := map[int]int{} // key -> holder (-1 none)
 	hasNode := map[int]bool{}
@@ -665,6 +679,11 @@ func (s *sim) oracles(nEnabled int) {
 	}
 	for si, sl := range snap {
 		for _, wp := range sl.Waiting {
+			if wp == nil {
+				s.fail("no_lost_wakeup", fmt.Sprintf("nil entry in the waiting list of slot %d", si))
+				ok = false
+				continue
+			}
 			w := s.idx[wp]
 			places[w]++
 			k := s.keyAt(w)
@@ -1181,8 +1200,8 @@ func stress(seed int64, thorough bool) {
 		verdict := "ok"
 		select {
 		case <-done:
-		case <-time.After(120 * time.Second):
-			fail("no_deadlock: workers did not finish within 120 s (every holder unlocks)")
+		case <-time.After(60 * time.Second):
+			fail("no_deadlock: workers did not finish within 60 s (every holder unlocks)")
 		}
 		detail := fmt.Sprintf("size=%d keys=%d workers=%d iters=%d ok=%d stale=%d", size, nkeys, workers, per, nok.Load(), nstale.Load())
 		if fails.Load() > 0 {
